@@ -232,7 +232,7 @@ type running struct {
 }
 
 // endpoint spec: <identity>:<clientmode>:<behaviour>
-// identity: good1 good2 otherca selfsigned expired notyet wrongname tls11 down
+// identity: good1 good2 otherca selfsigned expired notyet wrongname tls10 tls11 tls12 tls13 down
 // clientmode: none request requesthint require requireother
 func startServer(ip string, port int, spec string) (*running, error) {
 	w := getWorld()
@@ -260,9 +260,29 @@ func startServer(ip string, port int, spec string) (*running, error) {
 		cert = w.ca1.leaf("crypki", ips, now.Add(time.Hour), now.Add(2*time.Hour), false)
 	case "wrongname":
 		cert = w.ca1.leaf("crypki", []net.IP{net.ParseIP("10.9.9.9")}, now.Add(-time.Hour), now.Add(time.Hour), false)
-	case "tls11":
+	case "tls12": // exactly TLS 1.2: genuine
+		cert = w.ca1.leaf("crypki", ips, now.Add(-time.Hour), now.Add(time.Hour), false)
+		cfg.MinVersion, cfg.MaxVersion = tls.VersionTLS12, tls.VersionTLS12
+	case "tls13": // TLS 1.3 only: genuine
+		cert = w.ca1.leaf("crypki", ips, now.Add(-time.Hour), now.Add(time.Hour), false)
+		cfg.MinVersion = tls.VersionTLS13
+	case "tls11", "tls10":
 		cert = w.ca1.leaf("crypki", ips, now.Add(-time.Hour), now.Add(time.Hour), false)
 		cfg.MaxVersion = tls.VersionTLS11
+		if ident == "tls10" {
+			cfg.MaxVersion = tls.VersionTLS10
+		}
+		// suites that exist below TLS 1.2, set explicitly (gRPC would otherwise restrict the server to
+		// the HTTP/2-approved ones, none of which exists there): a client willing to speak TLS 1.0 / 1.1
+		// can complete the handshake with this server
+		for _, cs := range tls.CipherSuites() {
+			for _, v := range cs.SupportedVersions {
+				if v == cfg.MaxVersion {
+					cfg.CipherSuites = append(cfg.CipherSuites, cs.ID)
+					break
+				}
+			}
+		}
 	default:
 		return nil, fmt.Errorf("identity %s", ident)
 	}
@@ -385,7 +405,7 @@ func runSign(args []string) []string {
 }
 
 func genSign(g *hx.Gen, out *hx.Out) {
-	idents := []string{"good1", "good1", "good1", "good2", "otherca", "selfsigned", "expired", "notyet", "wrongname", "tls11", "down"}
+	idents := []string{"good1", "good1", "good1", "good2", "otherca", "selfsigned", "expired", "notyet", "wrongname", "tls11", "down", "tls10", "tls12", "tls13"}
 	cmodes := []string{"none", "request", "requesthint", "require", "require", "requireother"}
 	behavs := []string{"ok.1.c", "ok.1.c", "ok.2.c", "ok.3.sp", "ok.1.none", "ok.3.c.junk", "ok.2.none.junk", "empty", "garbage", "err.2", "err.14", "err.4", "err.7", "err.16", "err.13", "slow"}
 	var sets [][]string
@@ -400,7 +420,7 @@ func genSign(g *hx.Gen, out *hx.Out) {
 	for _, b := range []string{"empty", "garbage", "slow"} {
 		sets = append(sets, []string{"good1:require:" + b + "|good1:none:ok.2.c", "2", "1"})
 	}
-	for _, id := range []string{"otherca", "selfsigned", "expired", "notyet", "wrongname", "tls11", "down"} {
+	for _, id := range []string{"otherca", "selfsigned", "expired", "notyet", "wrongname", "tls11", "tls10", "down"} {
 		sets = append(sets, []string{id + ":none:ok.1.c|good1:require:ok.1.c", "2", "1"})
 		sets = append(sets, []string{id + ":request:ok.1.c|" + id + ":none:ok.1.c|good2:none:ok.3.sp", "2", "1"})
 	}
